@@ -8,6 +8,8 @@ def validNamePattern : String := "^(?!__)[_a-zA-Z][_a-zA-Z0-9]*$"
 def nameForbiddenPrefix : List Nat := [95, 95]
 def nameStart (c : Nat) : Bool := c == 95 || (97 ≤ c && c ≤ 122) || (65 ≤ c && c ≤ 90)
 def nameCont (c : Nat) : Bool := c == 95 || (97 ≤ c && c ≤ 122) || (65 ≤ c && c ≤ 90) || (48 ≤ c && c ≤ 57)
+/-- the pattern ends with `$` (which also matches before one trailing newline) instead of `\Z` -/
+def nameDollarQuirk : Bool := true
 
 /-- (rule id, format strings of its `add_error` call sites) -/
 def ruleFormats : List (String × List String) := [
